@@ -102,7 +102,7 @@ TraceStep ==
   \/ IsEvent("WaitReturn") /\ WaitReturn /\ s.waiter = Ev.args.r
   \/ IsEvent("JobWaitCall") /\ JobWaitCall(NameOf(Ev.args.j)) /\ s'.mwait = <<"job", Ev.args.j>>
   \/ IsEvent("JobWaitReturn") /\ JobWaitReturn(Ev.args.j) /\ s.result[Ev.args.j] = Ev.args.r
-  \/ IsEvent("Die") /\ Running /\ Die
+  \/ IsEvent("Die") /\ Running /\ (IF Ev.args.at = "spawned" THEN DieAfterSpawn(Ev.args.j) ELSE Die)
   \/ IsEvent("Start") /\ Restart
   \/ IsEvent("RmDone") /\ RmDone(Ev.args.n)
   \/ IsEvent("Internal") /\ UNCHANGED vars
